@@ -56,7 +56,8 @@ def gen_case(rng, store):
         bad_col = rng.randrange(nfields) if rng.random() < 0.35 else None
         for i, (accept, reject) in enumerate(pools):
             if i == bad_col and reject:
-                row.append(rng.choice(reject))
+                blank = [c for c in reject if c.strip() == ""]
+                row.append(rng.choice(blank) if blank and rng.random() < 0.3 else rng.choice(reject))
             elif bad_col is not None and i > bad_col and reject and rng.random() < 0.3:
                 row.append(rng.choice(reject))  # a second offender further right must not be the one reported
             else:
